@@ -3,7 +3,7 @@ import math, random, struct
 from vcheck import Stream, sx_str, sx_parse, run_impl, run_model, die
 
 PROPERTY = "C20"
-PROPS_VO = "Props/C20"
+PROPS_VO = ["Props/C20", "Props/C20i"]
 AXIOMS_OK = []
 KNOWN_SUITE = {"topo": "topo.known"}
 ASSUMPTIONS = [
@@ -84,7 +84,7 @@ def fill_tables(suite, cases):
     die("oracle tables do not converge")
 
 
-def streams(seed, tier):
+def api_streams(seed, tier):
     rng = random.Random(seed)
     out = []
     nmax = {"quick": 60, "thorough": 400, "search": 130}[tier]   # "search": after a broken correspondence
@@ -222,7 +222,13 @@ LEVEL_TEXT = ("Machine-checked theorems: the edge computed by the (repaired) cod
               "find_neighbors returns exactly the ascending list of indices whose digit vectors lie within the radius (f32 sqrt of the exact integer squared distance <= radius) in the "
               "iroot_ceil cube, hence contains the centre, is valid/sorted/duplicate-free, symmetric and monotone in the radius. The model is tied to the code by running every "
               "(ntotal <= 60 [thorough: 400], ndim <= 5, index, 9 radii) case plus exact powers, guards, many dimensions and random sizes on the real Topology and on the extracted model, and by "
-              "evaluating the geometric specification, symmetry and monotonicity on the implementation's own outputs.")
+              "evaluating the geometric specification, symmetry and monotonicity on the implementation's own outputs."
+              " Instruction level (Props/C20i.v): LIST.NEIGHBOR*IDS pushes exactly find_neighbors of the clamped operands (clamps stated) and, under the API theorem's side conditions, the geometric set; the three *VALS instructions push the addressed values of the records present at the neighbour positions in ascending order; missing operands and the size/dims = 0 guard are characterised exactly. Tied by exhaustive (size 0..12 x dims 0..3 x index -1..size x 4 radii) and random single-step streams on the real interpreter.")
 LEVEL_NOTE = ("Trusted: Coq kernel, extraction, ocaml/driver.ml, Rust harness, generators. Theorems are closed under the global context; their float hypotheses (FloatIntExact) are "
               "explicit premises, not axioms, validated on Rust's f32 by the f32-facts stream. The Flocq binary32 instance (with the classical axioms of Coq's Reals) is used only by the "
               "extracted model and the wire checker, never by a theorem.")
+
+
+def streams(seed, tier):
+    from checks import C20i_streams
+    return api_streams(seed, tier) + C20i_streams.streams(seed, tier)
